@@ -62,10 +62,11 @@ def gsd_bounded(rec, item):
 
 
 # ----------------------------------------------------------------------------- GSD, loop-body induction + progress
-def _gsd_body_paths(nc):
-    """One iteration of the correction loop from an ARBITRARY loop-head state satisfying the invariant."""
-    X = [z3.Real("x_%d" % i) for i in range(nc)]
-    Q = [z3.Int("q_%d" % i) for i in range(nc)]
+def _gsd_body_paths(nc, ns=1):
+    """One iteration of the correction loop from an ARBITRARY loop-head state satisfying the invariant.
+    Arrays are cell-major (index cell*ns + species), as the function receives them."""
+    X = [z3.Real("x_%d" % i) for i in range(nc * ns)]
+    Q = [z3.Int("q_%d" % i) for i in range(nc * ns)]
     dc, D = z3.Int("delta_count"), z3.Int("delta")
     results = []
 
@@ -79,17 +80,21 @@ def _gsd_body_paths(nc):
         rm = names["rm_species"].get()
         if is_sym(rm):
             rm = I.truth(rm)
+        sp0 = names["s"].get()
         entry = {"sto": list(names["mesh_x_sto"].get().elems), "dc": names["delta_count"].get(), "delta": names["delta"].get(),
-                 "tot": names["tot_species"].get().elems[0], "pc": list(I.pc), "defs": list(I.defs)}
+                 "tot": names["tot_species"].get().elems[sp0 if not is_sym(sp0) else 0], "pc": list(I.pc), "defs": list(I.defs)}
         # arbitrary loop-head state
         names["mesh_x_sto"].set(Vec([z3.ToReal(q) for q in Q], "double", name="mesh_x_sto"))
         names["delta_count"].set(dc)
         names["delta"].set(D)
-        tot = names["tot_species"].get().elems[0]
-        for i in range(nc):
+        sp = names["s"].get()
+        if is_sym(sp):
+            raise HarnessError("symbolic species loop variable")
+        tot = names["tot_species"].get().elems[sp]
+        for i in range(nc * ns):
             I.assume(z3.And(Q[i] >= 0, z3.Implies(Q[i] > 0, X[i] > 0)))
         I.assume(z3.And(dc >= 0, dc < D))
-        sq = z3.ToReal(sum(Q))
+        sq = z3.ToReal(sum(Q[i * ns + sp] for i in range(nc)))
         I.assume((sq - I.toreal(tot) == z3.ToReal(D - dc)) if rm else (I.toreal(tot) - sq == z3.ToReal(D - dc)))
         n_ev = len(I.events)
         n_pc = len(I.pc)
@@ -100,7 +105,7 @@ def _gsd_body_paths(nc):
             broke = True
         up = [e for e in I.events[n_ev:] if e[0] == "uprod"]
         results.append({"rm": rm, "broke": broke, "after": list(names["mesh_x_sto"].get().elems), "dc": names["delta_count"].get(),
-                        "target": up[0][3] if up else None, "scale": up[0][2] if up else None, "tot": tot, "I": I, "n_pc": n_pc, "pc": list(I.pc), "defs": list(I.defs), "entry": entry})
+                        "target": up[0][3] if up else None, "scale": up[0][2] if up else None, "tot": tot, "I": I, "n_pc": n_pc, "pc": list(I.pc), "defs": list(I.defs), "entry": entry, "sp": sp})
         raise EndPath("loop body executed once")
 
     def body(I):
@@ -109,7 +114,7 @@ def _gsd_body_paths(nc):
         I.check_lib_pre = False
         I.lazy_merge = False
         I.loop_hook = hook
-        I.call_fn("GenerateStochasticDistribution", [Vec(list(X), "double", name="mesh_x"), nc, 1, 42])
+        I.call_fn("GenerateStochasticDistribution", [Vec(list(X), "double", name="mesh_x"), nc, ns, 42])
         return None
 
     for pr in explore(program(), body, max_paths=400, budget_s=120, unwind=6):
@@ -117,10 +122,10 @@ def _gsd_body_paths(nc):
     return X, Q, dc, D, results
 
 
-def gsd_induction(rec, nc=2):
-    desc = "GSD correction loop, one iteration from an arbitrary invariant state, cells=%d species=1" % nc
+def gsd_induction(rec, nc=2, ns=1):
+    desc = "GSD correction loop, one iteration from an arbitrary invariant state, cells=%d species=%d" % (nc, ns)
     rec.structure(desc)
-    X, Q, dc, D, results = _gsd_body_paths(nc)
+    X, Q, dc, D, results = _gsd_body_paths(nc, ns)
     n = 0
     for r in results:
         I = r["I"]
@@ -131,9 +136,11 @@ def gsd_induction(rec, nc=2):
         after = [I.toreal(a) for a in r["after"]]
         dc2 = I.tosym(r["dc"])
         tot = I.toreal(r["tot"])
-        sq = sum(after, z3.RealVal(0))
-        inv = z3.And(*[z3.And(after[i] >= 0, z3.Or(after[i] == z3.ToReal(Q[i]), after[i] == z3.ToReal(Q[i]) + 1, after[i] == z3.ToReal(Q[i]) - 1)) for i in range(nc)],
-                     *[z3.Implies(after[i] > 0, X[i] > 0) for i in range(nc)],
+        sp = r["sp"]
+        sq = sum((after[i * ns + sp] for i in range(nc)), z3.RealVal(0))
+        inv = z3.And(*[z3.And(after[i] >= 0, z3.Or(after[i] == z3.ToReal(Q[i]), after[i] == z3.ToReal(Q[i]) + 1, after[i] == z3.ToReal(Q[i]) - 1)) for i in range(nc * ns)],
+                     *[z3.Implies(after[i] > 0, X[i] > 0) for i in range(nc * ns)],
+                     *[after[i * ns + o] == z3.ToReal(Q[i * ns + o]) for i in range(nc) for o in range(ns) if o != sp],
                      (sq - tot == z3.ToReal(D - dc2)) if r["rm"] else (tot - sq == z3.ToReal(D - dc2)),
                      dc2 >= dc, dc2 <= D)
         # decided without the path prefix (it only selects the correction direction, which the invariant states itself)
@@ -157,14 +164,15 @@ def gsd_induction(rec, nc=2):
                 rec.oblig(name, "holds", "", time.time() - t0, desc)
             elif res == z3.sat:
                 rec.oblig(name, "violated", "model found", time.time() - t0, desc)
-                rec.violation("gsd-invariant", "one iteration of the redistribution correction loop breaks its invariant / exit condition (%s)" % desc, {"structure": desc, "model": str(sv.model())[:400] if False else ""})
+                rp = replay_gsd_validity()
+                rec.violation("gsd-invariant", "one iteration of the redistribution correction loop breaks its invariant / exit condition (%s); real build: %s" % (desc, rp[1]), {"structure": desc, "real": rp[1]}, replayed=rp[0])
             else:
                 rec.oblig(name, "inconclusive", "solver unknown/timeout", time.time() - t0, desc)
     # initiation: the state in which the real code first reaches the loop satisfies the invariant
     seen = set()
     for r in results:
         e = r["entry"]
-        key = (r["rm"], len(e["pc"]))
+        key = (r["rm"], r["sp"], len(e["pc"]))
         if key in seen:
             continue
         seen.add(key)
@@ -176,8 +184,9 @@ def gsd_induction(rec, nc=2):
         sto = [I.toreal(a) for a in e["sto"]]
         tot = I.toreal(e["tot"])
         dl, d0 = I.tosym(e["delta"]), I.tosym(e["dc"])
-        init = z3.And(*[a >= 0 for a in sto], *[z3.Implies(sto[i] > 0, X[i] > 0) for i in range(nc)], d0 == 0, dl > 0,
-                      (sum(sto, z3.RealVal(0)) - tot == z3.ToReal(dl)) if r["rm"] else (tot - sum(sto, z3.RealVal(0)) == z3.ToReal(dl)))
+        ssum = sum((sto[i * ns + r["sp"]] for i in range(nc)), z3.RealVal(0))
+        init = z3.And(*[a >= 0 for a in sto], *[z3.Implies(sto[i] > 0, X[i] > 0) for i in range(nc * ns)], d0 == 0, dl > 0,
+                      (ssum - tot == z3.ToReal(dl)) if r["rm"] else (tot - ssum == z3.ToReal(dl)))
         t0 = time.time()
         sv.add(z3.Not(init))
         res = sv.check()
@@ -191,15 +200,15 @@ def gsd_induction(rec, nc=2):
     return X, Q, dc, D, results
 
 
-def gsd_progress(rec, nc=2):
+def gsd_progress(rec, nc=2, ns=1):
     """Termination with probability 1: from every invariant loop-head state SOME draw makes progress.
     The negation (exists state, for all draws: no progress) must be unsat; a model is a hang."""
-    desc = "GSD correction loop progress, cells=%d species=1" % nc
+    desc = "GSD correction loop progress, cells=%d species=%d" % (nc, ns)
     rec.structure(desc)
     t0 = time.time()
-    X, Q, dc, D, results = _gsd_body_paths(nc)
-    for rm in (True, False):
-        group = [r for r in results if r["rm"] == rm]
+    X, Q, dc, D, results = _gsd_body_paths(nc, ns)
+    for rm, spx in [(a, b) for a in (True, False) for b in range(ns)]:
+        group = [r for r in results if r["rm"] == rm and r["sp"] == spx]
         if not group:
             rec.oblig("progress query (%s)" % ("remove" if rm else "add"), "inconclusive", "no body paths", 0, desc)
             continue
@@ -231,19 +240,65 @@ def gsd_progress(rec, nc=2):
         r_ = s.check()
         secs = time.time() - t0
         rec.query(str(r_), secs)
-        name = "from every invariant state some draw makes progress (%s a molecule)" % ("remove" if rm else "add")
+        name = "from every invariant state some draw makes progress (%s a molecule of species %d)" % ("remove" if rm else "add", spx)
         if r_ == z3.unsat:
             rec.oblig(name, "holds", "", secs, desc)
         elif r_ == z3.sat:
             m = s.model()
-            xs = [float(model_value(m, x)) for x in X]
-            qs = [int(model_value(m, q)) for q in Q]
+            xs = [float(model_value(m, X[i * ns + spx])) for i in range(nc)]
+            qs = [int(model_value(m, Q[i * ns + spx])) for i in range(nc)]
             rec.oblig(name, "violated", "stuck state x=%s sampled=%s" % (xs, qs), secs, desc)
             hung = replay_hang(xs)
+            if not hung[0]:
+                rp = replay_gsd_validity()
+                hung = (rp[0], hung[1] + "; validity sweep of the real build: " + rp[1])
             rec.violation("gsd-hang", "the redistribution correction loop cannot make progress from real amounts %s with sampled counts %s: set-up never returns (%s)" % (xs, qs, hung[1]),
                           {"x": xs, "sampled": qs, "replay": hung[1]}, replayed=hung[0])
         else:
             rec.oblig(name, "inconclusive", "solver unknown", secs, desc)
+
+
+_validity = {}
+
+
+def replay_gsd_validity():
+    """Real build: redistribution mode on sparse multi-species states over many seeds (child process with a time
+    limit, since a defect here may also hang): every t=0 entry a non-negative integer, totals floored, empty cells empty."""
+    if "r" in _validity:
+        return _validity["r"]
+    from ..common import scratch
+    code = r'''
+import sys, math
+sys.path.insert(0, %r); sys.path.insert(0, %r)
+from strengths import *
+from vt.glue import real_engine
+net = RDNetwork(species=[Species("A"), Species("B"), Species("C")], reactions=[])
+bad = 0
+for x in ([0.6, 0.0, 1.7, 0.4, 0.0, 0.9, 3.2, 0.0, 0.3, 0.0, 1.1, 0.2, 0.7, 2.4, 0.0, 0.5, 0.0, 0.8], [5.5, 0.2, 0.0, 0.4, 0.3, 0.1, 0.0, 0.0, 7.7]):
+    nc = len(x) // 3
+    s = RDSystem(net, RDGridSpace(w=nc, h=1, d=1, cell_vol=1), state=x)
+    for opt in ("tauleap", "gillespie"):
+        for seed in range(1, 60):
+            e = real_engine(opt)
+            e.setup(RDScript(s, [0, 1], rng_seed=seed, init_state_processing="redist"))
+            o = e.get_output(); e.finalize()
+            x0 = [float(v) for v in o.data.value[:len(x)]]
+            ok = all(v >= 0 and v == int(v) for v in x0) and all(v == 0 for v, r in zip(x0, x) if r == 0)
+            for sp in range(3):
+                ok = ok and sum(x0[sp * nc:(sp + 1) * nc]) == math.floor(sum(x[sp * nc:(sp + 1) * nc]))
+            bad += (not ok)
+print("BAD", bad)
+''' % (SRC, VERIF)
+    path = os.path.join(scratch(), "gsd_validity.py")
+    open(path, "w").write(code)
+    try:
+        r = subprocess.run([sys.executable, path], capture_output=True, text=True, timeout=120, env=dict(os.environ, VERIF_SHARED_SCRATCH=scratch()))
+        ok = "BAD 0" not in r.stdout
+        txt = r.stdout.strip()[-100:] or r.stderr[-200:]
+    except subprocess.TimeoutExpired:
+        ok, txt = True, "real build did not return within 120 s"
+    _validity["r"] = (ok, txt)
+    return _validity["r"]
 
 
 def _mentions(c, prefix):
@@ -413,9 +468,9 @@ def _work(rec, item):
     if item[0] == "gsd":
         gsd_bounded(rec, item[1:])
     elif item[0] == "induction":
-        gsd_induction(rec, item[1])
+        gsd_induction(rec, *item[1:])
     elif item[0] == "progress":
-        gsd_progress(rec, item[1])
+        gsd_progress(rec, *item[1:])
     else:
         abi_mode(rec, item[1:])
 
@@ -430,7 +485,7 @@ def run(rec):
     for fn in ("GenerateStochasticDistribution", "engineexport_initialize_grid/graph (init-state section)", "SpeciesFirstToMeshFirstArray", "MkVec", "RDScript.init_state_processing via LibRDEngine.setup"):
         rec.encoded(fn)
     q = rec.tier == "quick"
-    items = [("induction", 2), ("progress", 2), ("induction", 3), ("progress", 3)]
+    items = [("induction", 2), ("progress", 2), ("induction", 3), ("progress", 3), ("induction", 2, 2), ("progress", 2, 2), ("induction", 3, 2)]
     if not q:
         # bounded unwinding of the whole function (mixed integer/real queries: many stay inconclusive and are listed as such)
         items += [("induction", 4), ("progress", 4), ("gsd", 2, 1, 2, False), ("gsd", 3, 1, 2, False), ("gsd", 2, 1, 2, True)]
